@@ -79,6 +79,8 @@ def make_tp(real=False):
     sub1(os.path.join(gd, "diam/dict/default.go"), "func init() {\n",
          "func init() { ResetDefault() }\n\n// ResetDefault rebuilds Default exactly as package init does (verification build).\nfunc ResetDefault() {\n")
     shutil.copy(os.path.join(VERIF, "patches/mongoapi.go"), os.path.join(ut, "mongoapi/mongoapi.go"))
+    if real:
+        shutil.copy(os.path.join(VERIF, "patches/diam_real_stub.go"), os.path.join(gd, "diam/zz_verif_real.go"))
     if not real:
         shutil.copy(os.path.join(VERIF, "patches/diam_network.go"), os.path.join(gd, "diam/network.go"))
         sub1(os.path.join(gd, "diam/server.go"), '\t"sync"\n', '\tsync "verif.local/vs/vsyncd"\n')
@@ -136,7 +138,7 @@ def make_overlay(repo, fine=False, real=False):
     open(os.path.join(BUILD, "alt%s.mod" % suffix), "w").write(mod)
     shutil.copy(os.path.join(repo, "go.sum"), os.path.join(BUILD, "alt%s.sum" % suffix))
     repl = {}
-    if not real:
+    if True:
         for pkg in SYNC_PKGS:
             for f in go_files(repo, pkg):
                 src = open(f).read()
@@ -155,7 +157,7 @@ def make_overlay(repo, fine=False, real=False):
                     os.makedirs(os.path.dirname(dst), exist_ok=True)
                     open(dst, "w").write(new)
                     repl[f] = dst
-    if not real:
+    if True:
         # statement-level scheduling points: instrument the (possibly already rewritten) file with tools/finepts
         tool = os.path.join(BUILD, "bin", "finepts")
         if not os.path.exists(tool) or os.path.getmtime(tool) < os.path.getmtime(os.path.join(VERIF, "tools/finepts/main.go")):
